@@ -42,3 +42,61 @@ Fixpoint until_quote (s : bs) : bs :=
 (* the same concatenation before the fix: no escaping *)
 Definition hidden_input_old (ensure : bs -> bs) (dest : bs) : bs :=
   input_prefix ++ ensure dest ++ input_suffix.
+
+(* ------------------------------------------------------------------------------------------
+   Responses.  A response is a declared content type and a body made of segments: text of keymasterd's
+   own templates and literals (Trusted), request-controlled text that went through the HTML escaper
+   (Escaped), request-controlled text written as it came (Raw).
+     failure_response   app.go writeFailureResponse: http.Error on the admin port (text/plain), the login /
+                        second-factor PAGE for a browser's 401, otherwise the line "<code> <status text>
+                        <detail>\n" with NO declared type (a browser sniffs it: it starts with a digit)
+     page               a page rendered by html/template: template text with escaped fields
+   rendered_as_document is what a browser does: declared text/html, or no declared type and a body whose
+   first non-blank byte opens a tag (a superset of the WHATWG sniffing rules net/http implements). *)
+Inductive seg := Trusted (t : bs) | Escaped (s : bs) | Raw (s : bs).
+Inductive ctype := CtHtml | CtPlain | CtAbsent | CtOther.
+Record response := mkResp { r_ctype : ctype; r_body : list seg }.
+
+Definition render_seg (g : seg) : bs :=
+  match g with Trusted t => t | Escaped s => html_escape s | Raw s => s end.
+Definition render (l : list seg) : bs := flat_map render_seg l.
+
+Definition is_ws (c : N) : bool := (c =? 9) || (c =? 10) || (c =? 12) || (c =? 13) || (c =? 32).
+Fixpoint skip_ws (s : bs) : bs :=
+  match s with [] => [] | c :: r => if is_ws c then skip_ws r else s end.
+Definition sniffs_html (s : bs) : bool :=
+  match skip_ws s with c :: _ => c =? 60 | [] => false end.
+Definition rendered_as_document (r : response) : bool :=
+  match r_ctype r with
+  | CtHtml => true
+  | CtAbsent => sniffs_html (render (r_body r))
+  | _ => false
+  end.
+
+Definition is_raw (g : seg) : bool := match g with Raw _ => true | _ => false end.
+Definition is_trusted (g : seg) : bool := match g with Trusted _ => true | _ => false end.
+Definition raw_free (l : list seg) : bool := negb (existsb is_raw l).
+Definition strip (l : list seg) : list seg := filter is_trusted l.
+Definition skeleton (s : bs) : bs := filter markup_byte s.
+
+Definition digit (n : N) : N := 48 + n mod 10.
+Definition code_bytes (c : N) : bs := [digit (c / 100); digit (c / 10); digit c].
+Definition failure_line (code : N) (status msg : bs) : list seg :=
+  [Trusted (code_bytes code ++ 32 :: status ++ [32]); Raw msg; Trusted [10]].
+Definition page (tpl : list (bs * bs)) (tail : bs) : list seg :=
+  flat_map (fun p => [Trusted (fst p); Escaped (snd p)]) tpl ++ [Trusted tail].
+
+Definition failure_response (admin_port accept_html : bool) (code : N) (status msg : bs)
+    (login_page : list seg) : response :=
+  if admin_port then mkResp CtPlain (failure_line code status msg ++ [Trusted [10]])
+  else if accept_html && (code =? 401) then mkResp CtAbsent login_page
+  else mkResp CtAbsent (failure_line code status msg).
+
+Definition failure_response_typed (admin_port accept_html : bool) (code : N) (status msg : bs)
+    (login_page : list seg) : response :=
+  let r := failure_response admin_port accept_html code status msg login_page in
+  if negb admin_port && accept_html then mkResp CtHtml (r_body r) else r.
+
+
+Definition ct_code (c : ctype) : N :=
+  match c with CtHtml => 0 | CtPlain => 1 | CtAbsent => 2 | CtOther => 3 end.
